@@ -67,9 +67,10 @@ static bool FARM; static long FHITS;
 static bool refused(const void *d) { if (FHITS && !d) { vf_count("copying_reads_refused_under_allocation_failure", 1); return true; } return false; }
 
 /* ---- values -------------------------------------------------------------------------- */
-static unsigned char VB[300]; static long vctr;
+static unsigned char VB[4400]; static long vctr;
 static size_t gval(int kind) {   /* 0 bytes, 1 C string, 2 all zero */
     size_t l = 1 + rng_below(&R, rng_chance(&R, 1, 8) ? 200 : 14);
+    if (kind == 1 && rng_chance(&R, 1, 16)) l = (size_t[]){1023, 1024, 1025, 2048, 4096}[rng_below(&R, 5)];   /* the buffer steps of the formatted put functions */
     vctr++;
     for (size_t i = 0; i < l; i++) VB[i] = kind == 2 ? 0 : kind == 1 ? (unsigned char)(1 + rng_below(&R, 255)) : (unsigned char)rng_below(&R, 256);
     if (kind != 2) VB[0] = (unsigned char)('!' + vctr % 90);
@@ -110,7 +111,7 @@ static void run_tree(long caseno) {
         size_t kl = strlen(KEYS[id]) + 1;
         if (c < 35) { int kind = (int)rng_below(&R, 3); size_t vl = gval(kind); cb_t k = cb(KEYS[id], kl), v = cb(VB, vl);
             vf_log("put %s v=%s", KEYS[id], vf_hex(VB, vl));
-            bool r = kind == 1 && rng_chance(&R, 1, 2) ? T->putstr(T, (char *)k.p, (char *)v.p) : T->putobj(T, k.p, k.n, v.p, v.n);
+            bool r = kind == 1 && rng_chance(&R, 1, 2) ? (rng_chance(&R, 1, 2) ? T->putstrf(T, (char *)k.p, "%s", (char *)v.p) : T->putstr(T, (char *)k.p, (char *)v.p)) : T->putobj(T, k.p, k.n, v.p, v.n);
             cb_kill(&k); cb_kill(&v); if (!r) { bad("put-failed", "put failed"); break; } mm_put(id, VB, vl); mut = true; }
         else if (c < 50) { vf_log("remove %s", KEYS[id]); cb_t k = cb(KEYS[id], kl); T->removeobj(T, k.p, k.n); cb_kill(&k); mm_del(id); mut = true; }
         else if (c < 65) { vf_log("get(newmem) %s", KEYS[id]); if (MP[id]) { size_t sz = 0; void *in = T->getobj(T, KEYS[id], kl, NULL, false);
@@ -151,7 +152,7 @@ static void run_hashtbl(long caseno) {
         int id = (int)rng_below(&R, NK); uint32_t c = rng_below(&R, 100); bool mut = false;
         if (c < 40) { int kind = (int)rng_below(&R, 3); size_t vl = gval(kind); cb_t k = cb(KEYS[id], strlen(KEYS[id]) + 1), v = cb(VB, vl);
             vf_log("put %s v=%s", KEYS[id], vf_hex(VB, vl));
-            bool r = kind == 1 && rng_chance(&R, 1, 2) ? T->putstr(T, (char *)k.p, (char *)v.p) : T->put(T, (char *)k.p, v.p, v.n);
+            bool r = kind == 1 && rng_chance(&R, 1, 2) ? (rng_chance(&R, 1, 2) ? T->putstrf(T, (char *)k.p, "%s", (char *)v.p) : T->putstr(T, (char *)k.p, (char *)v.p)) : T->put(T, (char *)k.p, v.p, v.n);
             cb_kill(&k); cb_kill(&v); if (!r) { bad("put-failed", "put failed"); break; } mm_put(id, VB, vl); mut = true; }
         else if (c < 55) { vf_log("remove %s", KEYS[id]); cb_t k = cb(KEYS[id], strlen(KEYS[id]) + 1); T->remove(T, (char *)k.p); cb_kill(&k); mm_del(id); mut = true; }
         else if (c < 75) { vf_log("get(newmem) %s", KEYS[id]); if (MP[id]) { size_t sz = 0; void *in = T->get(T, KEYS[id], NULL, false);
@@ -185,7 +186,7 @@ static void run_hasharr(long caseno) {
         int id = (int)rng_below(&R, NK); uint32_t c = rng_below(&R, 100); bool mut = false;
         if (c < 40) { int kind = (int)rng_below(&R, 3); size_t vl = gval(kind); cb_t k = cb(KEYS[id], strlen(KEYS[id]) + 1), v = cb(VB, vl);
             vf_log("put %s v=%s", KEYS[id], vf_hex(VB, vl));
-            bool r = kind == 1 && rng_chance(&R, 1, 2) ? T->putstr(T, (char *)k.p, (char *)v.p) : T->put_by_obj(T, k.p, k.n, v.p, v.n);
+            bool r = kind == 1 && rng_chance(&R, 1, 2) ? (rng_chance(&R, 1, 2) ? T->putstrf(T, (char *)k.p, "%s", (char *)v.p) : T->putstr(T, (char *)k.p, (char *)v.p)) : T->put_by_obj(T, k.p, k.n, v.p, v.n);
             cb_kill(&k); cb_kill(&v);
             if (r) mm_put(id, VB, vl); else { void *g = T->get(T, KEYS[id], NULL); if (g) free(g); else mm_del(id); }   /* full table: own key unchanged or absent */
             mut = true; }
@@ -222,7 +223,7 @@ static void run_listtbl(long caseno) {
         int id = (int)rng_below(&R, 5); uint32_t c = rng_below(&R, 100); bool mut = false;
         if (c < 40 && NLT < 200) { int kind = (int)rng_below(&R, 3); size_t vl = gval(kind); cb_t k = cb(KEYS[id], strlen(KEYS[id]) + 1), v = cb(VB, vl);
             vf_log("put %s v=%s", KEYS[id], vf_hex(VB, vl));
-            bool r = kind == 1 && rng_chance(&R, 1, 2) ? T->putstr(T, (char *)k.p, (char *)v.p) : T->put(T, (char *)k.p, v.p, v.n);
+            bool r = kind == 1 && rng_chance(&R, 1, 2) ? (rng_chance(&R, 1, 2) ? T->putstrf(T, (char *)k.p, "%s", (char *)v.p) : T->putstr(T, (char *)k.p, (char *)v.p)) : T->put(T, (char *)k.p, v.p, v.n);
             cb_kill(&k); cb_kill(&v); if (!r) { bad("put-failed", "put failed"); break; }
             LT[NLT].id = id; LT[NLT].v = vf_xdup(VB, vl); LT[NLT].n = vl; NLT++; mut = true; }
         else if (c < 52) { vf_log("remove %s", KEYS[id]); T->remove(T, KEYS[id]); int w = 0; for (int i = 0; i < NLT; i++) { if (LT[i].id == id) hm_free(LT[i].v); else LT[w++] = LT[i]; } NLT = w; mut = true; }
@@ -338,7 +339,7 @@ static void run_grow(long caseno) {
         if (c < 60 && NSQ < 300) { int kind = (int)rng_below(&R, 3); size_t vl = gval(kind); cb_t v = cb(VB, vl);
             vf_log("add v=%s", vf_hex(VB, vl));
             bool str = kind == 1 && rng_chance(&R, 1, 2);
-            bool r = str ? G->addstr(G, (char *)v.p) : G->add(G, v.p, v.n); cb_kill(&v);
+            bool r = str ? (rng_chance(&R, 1, 2) ? G->addstrf(G, "%s", (char *)v.p) : G->addstr(G, (char *)v.p)) : G->add(G, v.p, v.n); cb_kill(&v);
             if (!r) { bad("add-failed", "grow add failed"); break; } sq_ins(NSQ, VB, str ? vl - 1 : vl); mut = true; }
         else if (c < 90 && NSQ) { vf_log("toarray/tostring"); size_t sz = 0, en; FB(); void *a = G->toarray(G, &sz); FE(); void *e = sq_flat(&en, false); if (!refused(a)) retain("qgrow.toarray", a, sz, e, en, NULL); hm_free(e);
             if (!abandon) { FB(); char *s = G->tostring(G); FE(); e = sq_flat(&en, true); if (!refused(s)) retain("qgrow.tostring", s, s ? strlen(s) + 1 : 0, e, strlen(e) + 1, NULL); hm_free(e); } }
